@@ -398,7 +398,8 @@ func (p *Prog) runtimeHashRule(r *Report, bh *ssa.Function) {
 	}
 	fromRule, fromCfg, fromSum, bypass := false, false, false, false
 	for _, rv := range retVals {
-		for x := range backSlice(rv, SliceOpts{}) {
+		// (through the results of helpers of the package: the loop over the runtime files may be a function of its own)
+		for x := range backSlice(rv, SliceOpts{Interproc: 2, Prog: p, StopAtCall: func(c *ssa.Call) bool { return callsFn(c, ruleHashFn) }}) {
 			if c, ok := x.(*ssa.Call); ok {
 				if callsFn(c, ruleHashFn) {
 					fromRule = true
